@@ -159,7 +159,7 @@ def run(ctx: Ctx) -> None:
     N = ctx.n(160, 4000)
     rng = ctx.rng
     done = 0
-    while done < N:
+    while done < N and not ctx.out_of_time():
         case = gen_case(ctx, rng)
         if case is None:
             ctx.count("skipped:too_large")
